@@ -310,7 +310,7 @@ class Gen:
             return {"call": "mh_enter"}
         if not self.hook or r.random() < 0.2:
             self.hook = True
-            return {"call": "add_probe_hook"}
+            return {"call": "add_probe_hook", "style": r.randrange(3)}
         if r.random() < 0.1:
             self.hook = False
             return {"call": "remove_probe_hook"}
